@@ -96,6 +96,8 @@ package reftable
 //@   nopanic
 //@   modifies r.ALLFIELDS
 //@   ensures[keeps-the-key-it-is-given] {C01, C02} ok ==> r.LastKey == key
+//@   ensures[l3:reads-the-child-position] {C01, C02} ok && vlen(buf) >= 1 ==> r.Offset == vval(buf) && n == vlen(buf)
+//@   ensures[l3:accepts-a-terminated-varint] {C01, C02} vlen(buf) >= 1 && vlen(buf) <= len(buf) ==> ok
 //@   ensures ok ==> 0 < n && n <= len(buf)
 
 //@ func (*objRecord).decode
@@ -188,6 +190,11 @@ package reftable
 //@   props C01
 //@   requires ref(r.Value) != ref(buf)
 //@   modifies buf[0:len(buf)], pv, anyof(*RefRecord), anyof([]byte)
+
+// C01 layer 3 (index records): see verif_lemmas.go
+//@ func lemmaIndexValueRoundTrip
+//@   props C01 C02
+//@   modifies buf[0:len(buf)], pv, anyof(*indexRecord)
 
 //@ func lemmaKeyRoundTrip
 //@   props C01 C14
@@ -289,6 +296,7 @@ package reftable
 //@   nopanic
 //@   modifies buf[0:len(buf)], pv
 //@   ensures ok ==> 1 <= n && n <= len(buf)
+//@   ensures[l3:the-value-is-the-child-position] {C01, C02} ok ==> n <= 10 && (r.Offset < 4611686018427387904 ==> n == vlen(buf) && vval(buf) == r.Offset)
 
 //@ func (*objRecord).encode
 //@   props C14 C01
